@@ -162,7 +162,7 @@ SWC_PID = r"-?[0-9]+"
 # characters an ignored trailing field may consist of (number spellings only: a ',' or a letter other than e/E makes the line malformed)
 NUMBER_CHARS = r"[+\-.0-9eE]"
 # decimal number of the ASC format: sign, digits with an optional point, exponent
-ASC_NUMBER = r"[-+]?(?:[0-9]+\.?[0-9]*|\.[0-9]+)(?:[eE][-+]?[0-9]+)?"
+ASC_NUMBER = r"[-+]?(?:\d+\.?\d*|\.\d+)(?:[eE][-+]?\d+)?"
 
 
 def L(text):
@@ -333,7 +333,7 @@ def asc_facts():
         subset("plain-decimal-numbers-are-numbers", L(r"-?(?:0|[1-9][0-9]*)(?:\.[0-9]+)?"), z3.Intersect(Pn.fullmatch(), hitw),
                "integers and decimals as Neurolucida writes them are words that pass the number test"),
         # FINDING (C15): the Lexer applies RE_FLOAT.match (a PREFIX test): a word like '1_0' or '1٣' passes it, float() accepts it
-        # (10.0 / 13.0) and a malformed point is converted instead of rejected.
+        # (10.0 / 13.0 -- the second one is tolerated by the reference, which allows any Unicode decimal digit) and a malformed point is converted instead of rejected.
         subset("number-token-is-entirely-a-number", z3.Intersect(hitw, fl_ok), L(ASC_NUMBER),  # FINDING
                "a word that passes the Lexer's number test AND that float() converts (i.e. a word that becomes a FLOAT token) is a decimal number in its entirety"),
     ]
